@@ -7,6 +7,8 @@ CONSTANT Origs = {6}
 CONSTANT Pads = {0, 1, 3}
 CONSTANT SzAs = {0, 1, 3}
 CONSTANT SzBs = {2}
+CONSTANT P2Pads = {0, 3}
+CONSTANT FlagDefect = FALSE
 CONSTANT WrapDefect = FALSE
 CONSTANT FullW = 0
 INIT Init
@@ -22,4 +24,8 @@ INVARIANT SizeSliceSmall
 INVARIANT EnvelopeByte
 INVARIANT Translation
 INVARIANT OriginalLength
+INVARIANT FlagIrrelevant
+INVARIANT FlagNeverHelps
+INVARIANT FlagPaired
+INVARIANT ReadingsSound
 POSTCONDITION AllCasesVisited
